@@ -338,6 +338,9 @@ def optimize_leaves_propagation_inputs(ctx):
 
 def run(ctx):
     optimize_leaves_propagation_inputs(ctx)
+    from .c18 import fock_symmetric_in_h1
+    from ..rules.trialsib import Sib as _Sib
+    fock_symmetric_in_h1(ctx, _Sib(ctx))
     pure1(ctx)
     driver_modes(ctx)
     primal_path(ctx)
